@@ -92,11 +92,14 @@ func (s *gkvp) SerializeValueTo(pc *PrintCtx) {
 	// if sb.jsonMode {
 	// 	sb.appendRune('}')
 	// }
-	_ = serializeAttrs(pc, s.items)
+	// serializeAttrs sorts and dedupes in place: work on a copy, the
+	// members may be shared with other records being printed right now.
+	_ = serializeAttrs(pc, slices.Clone(s.items))
 }
 
 func (s Attrs) SerializeValueTo(pc *PrintCtx) {
-	_ = serializeAttrs(pc, s)
+	// see gkvp.SerializeValueTo
+	_ = serializeAttrs(pc, slices.Clone(s))
 }
 
 func dedupeSlice[S ~[]E, E any](x S, cmp func(a, b E) bool) S {
